@@ -6,6 +6,7 @@ package e3
 
 import (
 	"fmt"
+	"runtime"
 	"sort"
 	"strings"
 	"sync/atomic"
@@ -110,7 +111,11 @@ func RunOnce(t *testing.T, sc Scenario, prefix []int, onLeak func(string)) (res 
 		for _, th := range e.threads {
 			th := th
 			go func() {
-				vsched.Name(th.name)
+				// "~" sorts after every library goroutine name (file names): in the canonical
+				// schedule the library runs as far as it can before the environment's next
+				// action, so a departure is "the environment acts early" or "another library
+				// goroutine goes first" — the interesting races are then one departure away.
+				vsched.Name("~" + th.name)
 				vsched.Point(th.name + " start")
 				defer e.done.Add(1)
 				th.fn()
@@ -121,11 +126,16 @@ func RunOnce(t *testing.T, sc Scenario, prefix []int, onLeak func(string)) (res 
 			mon = func() { sc.Monitor(e) }
 		}
 		s.Run(w.Settle, func() bool { return e.done.Load() == n }, mon)
+		hungStacks := ""
+		if s.Hung {
+			buf := make([]byte, 1<<19)
+			hungStacks = string(buf[:runtime.Stack(buf, true)])
+		}
 		s.Deactivate()
 		s.ReleaseAll()
 		w.Settle()
 		if s.Hung {
-			e.Violate("hang", "no thread enabled, harness threads unfinished (%d of %d done), virtual horizon %v reached: deadlock or lost wake-up", e.done.Load(), n, s.Horizon)
+			e.Violate("hang", "no thread enabled, harness threads unfinished (%d of %d done), virtual horizon %v reached: deadlock or lost wake-up\n%s", e.done.Load(), n, s.Horizon, blockedSummary(hungStacks))
 		}
 		if sc.Finish != nil && s.Diverged == "" {
 			sc.Finish(e)
@@ -138,6 +148,29 @@ func RunOnce(t *testing.T, sc Scenario, prefix []int, onLeak func(string)) (res 
 		res.Steps = s.Steps
 	})
 	return res
+}
+
+// blockedSummary keeps, from a full goroutine dump, the goroutines that are neither the
+// scheduler nor runtime/testing housekeeping: the ones a hang report is about.
+func blockedSummary(dump string) string {
+	var out []string
+	for _, g := range strings.Split(dump, "\n\n") {
+		if strings.Contains(g, "vsched.(*Sched).Run") || strings.Contains(g, "testing.(*M)") || strings.Contains(g, "testing.tRunner") && !strings.Contains(g, "verif/") ||
+			strings.Contains(g, "runtime.goexit0") || strings.Contains(g, "testing.(*T).Run(") || strings.Contains(g, "e2.Run.func") ||
+			strings.Contains(g, "synctest.Run(") || strings.Contains(g, "testingSynctestTest") {
+			continue
+		}
+		lines := strings.Split(g, "\n")
+		if len(lines) > 9 {
+			lines = lines[:9]
+		}
+		out = append(out, strings.Join(lines, "\n"))
+	}
+	s := strings.Join(out, "\n--\n")
+	if len(s) > 3500 {
+		s = s[:3500]
+	}
+	return s
 }
 
 // Stats summarises an exploration.
